@@ -1,4 +1,6 @@
 import Asn1cModel.Proofs.Integer
+import Asn1cModel.Proofs.Strtox
+import Asn1cModel.Proofs.Real
 /-
   C16 — INTEGER and REAL conversion helpers are exact and produce canonical contents.
   Property theorems only (helper lemmas: Proofs/Integer.lean, Proofs/Real.lean).
@@ -143,5 +145,427 @@ theorem ulong2INTEGER_partial (v : Nat) (h : v < 2 ^ 63) :
 
 /-- F2: 2^63 passed through `intmax_t` is stored as a negative INTEGER. -/
 theorem ulong2INTEGER_cex : twosVal (ulong2INTEGER (2 ^ 63)) = -(2 ^ 63) := by decide
+
+open Asn1c.Proofs.Strtox
+
+open Asn1c.Proofs.Strtox
+
+/-! ### decimal parsers `asn_strtoimax_lim`, `asn_strtoumax_lim`, `asn_strtol_lim`, `asn_strtoul_lim`
+
+  "The parsers accept exactly the in-range numerals."  `numeral? signed s` (Spec/Numeral.lean) is
+  `some v` iff the *whole* byte string `s` is `['+' | '-'] digit+` (ASCII, leading zeros allowed,
+  '-' only when `signed`) and denotes `v`.  Bytes are arbitrary `Nat`s.  `.ok` = ASN_STRTOX_OK;
+  `endPos` = offset of `*end`, `val` = the value stored through the out-pointer. -/
+
+/-- `numeral?` spelled out: `s = sign ++ digits`, sign empty, "+" or (signed only) "-",
+    one or more ASCII digits, value = ± the decimal value of the digits. -/
+theorem numeral?_spelled_out (signed : Bool) (s : List Nat) (v : Int) :
+    numeral? signed s = some v ↔
+      ∃ sign digits, s = sign ++ digits ∧
+        (sign = [] ∨ sign = [0x2b] ∨ (signed = true ∧ sign = [0x2d])) ∧
+        digits ≠ [] ∧ allDigits digits ∧
+        v = (if sign = [0x2d] then -1 else 1) * (digitsVal 0 digits : Int) :=
+  numeral?_eq_some_iff signed s v
+
+/-- **asn_strtoimax_lim** returns ASN_STRTOX_OK exactly on the numerals that fit `intmax_t`
+    (every other byte string: some other result code). -/
+theorem strtoimax_accepts_iff (s : List Nat) :
+    (strtoimax s).res = .ok ↔ ∃ v, numeral? true s = some v ∧ fitsS64 v :=
+  ⟨(strtoimax_char s).2, fun ⟨v, hv, hf⟩ => by rw [(strtoimax_char s).1 v hv hf]⟩
+
+/-- **asn_strtoimax_lim** on an in-range numeral: OK, `*end` at the end of the input,
+    the exact value stored. -/
+theorem strtoimax_ok_value (s : List Nat) (v : Int) (hv : numeral? true s = some v) (hf : fitsS64 v) :
+    strtoimax s = ⟨.ok, s.length, some v⟩ :=
+  (strtoimax_char s).1 v hv hf
+
+/-- `strtoimax_accepts_iff` + `strtoimax_ok_value` in one explicit statement (no `numeral?`). -/
+theorem strtoimax_explicit (s : List Nat) :
+    (strtoimax s).res = .ok ↔
+      ∃ sign digits, s = sign ++ digits ∧ (sign = [] ∨ sign = [0x2b] ∨ sign = [0x2d]) ∧
+        digits ≠ [] ∧ allDigits digits ∧
+        fitsS64 ((if sign = [0x2d] then -1 else 1) * (digitsVal 0 digits : Int)) ∧
+        strtoimax s = ⟨.ok, s.length,
+          some ((if sign = [0x2d] then -1 else 1) * (digitsVal 0 digits : Int))⟩ := by
+  constructor
+  · intro h
+    obtain ⟨v, hv, hf⟩ := (strtoimax_accepts_iff s).mp h
+    obtain ⟨sign, digits, hs, hsg, hne, hd, rfl⟩ := (numeral?_eq_some_iff true s v).mp hv
+    refine ⟨sign, digits, hs, ?_, hne, hd, hf, strtoimax_ok_value s _ hv hf⟩
+    rcases hsg with h | h | ⟨_, h⟩ <;> simp [h]
+  · rintro ⟨_, _, _, _, _, _, _, h⟩; rw [h]
+
+/-- **asn_strtoumax_lim** returns ASN_STRTOX_OK exactly on the unsigned numerals (optional '+',
+    no '-') that fit `uintmax_t`. -/
+theorem strtoumax_accepts_iff (s : List Nat) :
+    (strtoumax s).res = .ok ↔ ∃ v, numeral? false s = some v ∧ fitsU64 v :=
+  ⟨(strtoumax_char s).2, fun ⟨v, hv, hf⟩ => by rw [(strtoumax_char s).1 v hv hf]⟩
+
+/-- **asn_strtoumax_lim** on an in-range numeral: OK, `*end` at the end, the exact value. -/
+theorem strtoumax_ok_value (s : List Nat) (v : Int) (hv : numeral? false s = some v) (hf : fitsU64 v) :
+    strtoumax s = ⟨.ok, s.length, some v⟩ :=
+  (strtoumax_char s).1 v hv hf
+
+/-- explicit form for **asn_strtoumax_lim** (no `numeral?`) -/
+theorem strtoumax_explicit (s : List Nat) :
+    (strtoumax s).res = .ok ↔
+      ∃ sign digits, s = sign ++ digits ∧ (sign = [] ∨ sign = [0x2b]) ∧
+        digits ≠ [] ∧ allDigits digits ∧ digitsVal 0 digits < 2 ^ 64 ∧
+        strtoumax s = ⟨.ok, s.length, some (digitsVal 0 digits : Int)⟩ := by
+  constructor
+  · intro h
+    obtain ⟨v, hv, hf⟩ := (strtoumax_accepts_iff s).mp h
+    have hv' := hv
+    obtain ⟨sign, digits, hs, hsg, hne, hd, hval⟩ := (numeral?_eq_some_iff false s v).mp hv'
+    have hsg' : sign = [] ∨ sign = [0x2b] := by
+      rcases hsg with h | h | ⟨h, _⟩
+      · exact Or.inl h
+      · exact Or.inr h
+      · cases h
+    have hv2 : v = (digitsVal 0 digits : Int) := by
+      rcases hsg' with h | h <;> simp [h] at hval <;> exact hval
+    subst hv2
+    refine ⟨sign, digits, hs, hsg', hne, hd, ?_, strtoumax_ok_value s _ hv hf⟩
+    have := hf.2
+    exact_mod_cast this
+  · rintro ⟨_, _, _, _, _, _, _, h⟩; rw [h]
+
+/-- **asn_strtol_lim** (LP64: `long` = 64 bit): OK exactly on the numerals that fit `long`. -/
+theorem strtol_accepts_iff (s : List Nat) :
+    (strtol s).res = .ok ↔ ∃ v, numeral? true s = some v ∧ fitsS64 v :=
+  ⟨(strtol_char s).2, fun ⟨v, hv, hf⟩ => by rw [(strtol_char s).1 v hv hf]⟩
+
+/-- **asn_strtol_lim** on an in-range numeral: OK, `*end` at the end, the exact value. -/
+theorem strtol_ok_value (s : List Nat) (v : Int) (hv : numeral? true s = some v) (hf : fitsS64 v) :
+    strtol s = ⟨.ok, s.length, some v⟩ :=
+  (strtol_char s).1 v hv hf
+
+/-- **asn_strtoul_lim** (LP64): OK exactly on the unsigned numerals that fit `unsigned long`. -/
+theorem strtoul_accepts_iff (s : List Nat) :
+    (strtoul s).res = .ok ↔ ∃ v, numeral? false s = some v ∧ fitsU64 v :=
+  ⟨(strtoul_char s).2, fun ⟨v, hv, hf⟩ => by rw [(strtoul_char s).1 v hv hf]⟩
+
+/-- **asn_strtoul_lim** on an in-range numeral: OK, `*end` at the end, the exact value. -/
+theorem strtoul_ok_value (s : List Nat) (v : Int) (hv : numeral? false s = some v) (hf : fitsU64 v) :
+    strtoul s = ⟨.ok, s.length, some v⟩ :=
+  (strtoul_char s).1 v hv hf
+
+/-- "9223372036854775807" (INTMAX_MAX) is accepted with its value -/
+example : strtoimax [0x39,0x32,0x32,0x33,0x33,0x37,0x32,0x30,0x33,0x36,0x38,0x35,0x34,0x37,0x37,0x35,0x38,0x30,0x37]
+    = ⟨.ok, 19, some 9223372036854775807⟩ := by decide
+/-- "9223372036854775808" is rejected with ASN_STRTOX_ERROR_RANGE -/
+example : (strtoimax [0x39,0x32,0x32,0x33,0x33,0x37,0x32,0x30,0x33,0x36,0x38,0x35,0x34,0x37,0x37,0x35,0x38,0x30,0x38]).res
+    = .range := by decide
+/-- "-9223372036854775808" (INTMAX_MIN) is accepted with its value -/
+example : strtoimax [0x2d,0x39,0x32,0x32,0x33,0x33,0x37,0x32,0x30,0x33,0x36,0x38,0x35,0x34,0x37,0x37,0x35,0x38,0x30,0x38]
+    = ⟨.ok, 20, some (-9223372036854775808)⟩ := by decide
+/-- "+18446744073709551615" (UINTMAX_MAX) accepted, "18446744073709551616" → RANGE, "-1" → INVAL,
+    "12x" → EXTRA_DATA (unsigned parser) -/
+example : strtoumax [0x2b,0x31,0x38,0x34,0x34,0x36,0x37,0x34,0x34,0x30,0x37,0x33,0x37,0x30,0x39,0x35,0x35,0x31,0x36,0x31,0x35]
+      = ⟨.ok, 21, some 18446744073709551615⟩ ∧
+    (strtoumax [0x31,0x38,0x34,0x34,0x36,0x37,0x34,0x34,0x30,0x37,0x33,0x37,0x30,0x39,0x35,0x35,0x31,0x36,0x31,0x36]).res
+      = .range ∧
+    (strtoumax [0x2d,0x31]).res = .inval ∧ (strtoumax [0x31,0x32,0x78]).res = .extra := by decide
+/-- the spec side on the same strings -/
+example : numeral? true [0x2d,0x30,0x30,0x37] = some (-7) ∧ numeral? false [0x2d,0x37] = none ∧
+    numeral? true [0x2b] = none ∧ numeral? true [0x31,0x20] = none := by decide
+
+/-! ### REAL: `asn_double2REAL` / `asn_REAL2double` (Impl/Real.lean, Spec/Real.lean)
+
+  A double is its IEEE-754 bit pattern `b < 2^64`.  `derReal b` is the X.690 §8.5/§11.3 DER
+  contents (base 2, odd mantissa, fewest exponent and mantissa octets, specials, +0 = empty).
+  `t = ctz (f64Mant b)` is the number of trailing zero bits of the 53-bit significand. -/
+
+section Real
+open Asn1c.Impl.Real Asn1c.Proofs.Real
+
+theorem f64_fields (b : Nat) : expField b = f64Exp b ∧ fracField b = f64Frac b ∧ signOf b = f64Sign b :=
+  ⟨rfl, rfl, rfl⟩
+
+/-- **asn_double2REAL, special values**: NaN (every payload, either sign), ±∞ and ±0 are stored
+    exactly as X.690 §8.5.9 / §8.5.3 prescribe (42, 40/41, empty contents / 43). -/
+theorem double2REAL_special_eq_derReal (b : Nat) (h : f64IsNaN b ∨ f64IsInf b ∨ f64IsZero b) :
+    double2REAL b = derReal b := by
+  unfold double2REAL classify derReal f64Mant
+  unfold f64IsNaN f64IsInf f64IsZero at h
+  obtain ⟨e1, e2, e3⟩ := f64_fields b
+  rw [e1, e2, e3]
+  rcases h with ⟨h1, h2⟩ | ⟨h1, h2⟩ | ⟨h1, h2⟩ <;> simp [h1, h2]
+
+theorem normal_ctz_le (b : Nat) (hn : f64IsNormal b) :
+    f64Mant b = 2 ^ 52 + f64Frac b ∧ ctz (f64Mant b) ≤ 52 := by
+  unfold f64IsNormal at hn
+  have hm : f64Mant b = 2 ^ 52 + f64Frac b := by unfold f64Mant; rw [if_neg (by omega)]
+  refine ⟨hm, ?_⟩
+  have hF : f64Frac b < 2 ^ 52 := Nat.mod_lt _ (by positivity)
+  have := ctz_lt_of_mod_ne (f64Mant b) 53 (by rw [hm]; omega)
+  omega
+
+/-- what `asn_double2REAL` stores for **every normal double**: the DER first octet and exponent,
+    then the minimal mantissa octets — preceded by one redundant 00 octet exactly when `t < 48`
+    and `t % 8 ≥ 5` (the odd-mantissa right shift by 5..7 bits clears the hidden-bit octet `0x1X`,
+    which is still emitted: finding F31). -/
+theorem double2REAL_normal (b : Nat) (hn : f64IsNormal b) :
+    double2REAL b =
+      (0x80 + 0x40 * f64Sign b + ((realExpOctets (f64Pow b + (ctz (f64Mant b) : Nat))).length - 1)) ::
+        (realExpOctets (f64Pow b + (ctz (f64Mant b) : Nat)) ++
+          ((if ctz (f64Mant b) < 48 ∧ ctz (f64Mant b) % 8 ≥ 5 then [0] else []) ++
+            toBE (f64Mant b / 2 ^ ctz (f64Mant b)))) := by
+  obtain ⟨hm, ht⟩ := normal_ctz_le b hn
+  unfold f64IsNormal at hn
+  have hcl : classify b = .normal := by
+    unfold classify; rw [(f64_fields b).1, if_neg (by omega), if_neg (by omega)]
+  unfold double2REAL
+  rw [hcl]
+  simp only []
+  rw [double2REALfinite_normal b (by rw [(f64_fields b).1]; omega)]
+  obtain ⟨e1, e2, e3⟩ := f64_fields b
+  rw [e1, e2, e3, ← hm]
+  have hp : f64Pow b = (f64Exp b : Int) - 1075 := by unfold f64Pow; rw [if_neg (by omega)]
+  rw [← hp, expHeader_eq _ _ (by rw [hp]; omega) (by rw [hp]; omega)]
+  split <;> simp
+
+/-- **asn_double2REAL = DER** (partial: see `double2REAL_normal` / F31 for the excluded normal
+    doubles and `double2REAL_subnormal_cex` / F1 for subnormals): for every normal double whose
+    significand does not have `t < 48 ∧ t % 8 ≥ 5` trailing zero bits the stored octets are
+    exactly the X.690 DER contents. -/
+theorem double2REAL_eq_derReal_partial (b : Nat) (hn : f64IsNormal b)
+    (hg : ¬ (ctz (f64Mant b) < 48 ∧ ctz (f64Mant b) % 8 ≥ 5)) :
+    double2REAL b = derReal b := by
+  rw [double2REAL_normal b hn, if_neg hg]
+  obtain ⟨hm, _⟩ := normal_ctz_le b hn
+  unfold f64IsNormal at hn
+  unfold derReal
+  rw [if_neg (by omega), if_neg (by rw [hm]; omega)]
+  simp
+
+/-- the guard of `double2REAL_eq_derReal_partial` is satisfiable (1.0, 1.5, 0.1, DBL_MAX, DBL_MIN) -/
+example : ∀ b ∈ [0x3ff0000000000000, 0x3ff8000000000000, 0x3fb999999999999a, 0x7fefffffffffffff, 0x0010000000000000],
+    f64IsNormal b ∧ ¬ (ctz (f64Mant b) < 48 ∧ ctz (f64Mant b) % 8 ≥ 5) := by decide +kernel
+
+/-- F31: `asn_double2REAL(1.0078125)` stores `80 F9 00 81`; the DER contents are `80 F9 81`
+    (X.690 §11.3.1: mantissa in the fewest octets). -/
+theorem double2REAL_leading_zero_cex :
+    f64IsNormal 0x3ff0200000000000 ∧ double2REAL 0x3ff0200000000000 = [0x80, 0xf9, 0x00, 0x81] ∧
+    derReal 0x3ff0200000000000 = [0x80, 0xf9, 0x81] := by decide +kernel
+
+set_option exponentiation.threshold 2000 in
+/-- F1: subnormal doubles.  `asn_double2REAL` forces the hidden bit that subnormals do not have:
+    the double with bit pattern 3 (3·2^-1074) is stored as (2^52+3)·2^-1125 instead of the DER
+    form `81 FB CE 03`, and decodes back as the bit pattern 2. -/
+theorem double2REAL_subnormal_cex :
+    f64IsSubnormal 3 ∧ double2REAL 3 = [0x81, 0xfb, 0x9b, 0x10, 0, 0, 0, 0, 0, 3] ∧
+    derReal 3 = [0x81, 0xfb, 0xce, 0x03] ∧ REAL2double (double2REAL 3) = .ok 2 := by decide +kernel
+
+theorem bits_decompose (b : Nat) (hb : b < 2 ^ 64) :
+    b = f64Sign b * signBit + (f64Exp b * 2 ^ 52 + f64Frac b) := by
+  unfold f64Sign f64Exp f64Frac signBit; omega
+
+/-- **round trip, normal doubles**: `asn_REAL2double(asn_double2REAL(d)) = d` bit for bit, for
+    every normal double (including those stored with the redundant mantissa octet of F31). -/
+theorem REAL2double_double2REAL (b : Nat) (hb : b < 2 ^ 64) (hn : f64IsNormal b) :
+    REAL2double (double2REAL b) = .ok b := by
+  obtain ⟨hm, ht⟩ := normal_ctz_le b hn
+  rw [double2REAL_normal b hn]
+  unfold f64IsNormal at hn
+  have hF : f64Frac b < 2 ^ 52 := Nat.mod_lt _ (by positivity)
+  have hp : f64Pow b = (f64Exp b : Int) - 1075 := by unfold f64Pow; rw [if_neg (by omega)]
+  have hm0 : f64Mant b ≠ 0 := by rw [hm]; omega
+  obtain ⟨p1, p2⟩ := ctz_props (f64Mant b) hm0
+  obtain ⟨d, hd⟩ := Nat.dvd_of_mod_eq_zero p1
+  have hpc : (2:Nat) ^ ctz (f64Mant b) > 0 := by positivity
+  have hN : f64Mant b / 2 ^ ctz (f64Mant b) = d := by
+    have := Nat.mul_div_cancel_left d hpc; rw [← hd] at this; exact this
+  have hdle : d ≤ f64Mant b := by rw [← hN]; exact Nat.div_le_self _ _
+  have hs : f64Sign b ≤ 1 := by unfold f64Sign; omega
+  rw [REAL2double_base2 (f64Sign b) hs _ (by rw [hp]; omega) (by rw [hp]; omega) _
+    (by split <;> simp) _ (by rw [hN]; omega) (by rw [hN]; intro h; subst h; simp at hd; omega)]
+  have hr : roundToDouble (f64Mant b / 2 ^ ctz (f64Mant b)) (f64Pow b + (ctz (f64Mant b) : Nat))
+      = f64Exp b * 2 ^ 52 + f64Frac b := by
+    rw [← roundToDouble_mul_pow, hN, Nat.mul_comm, ← hd, hm, hp]
+    exact roundToDouble_normal _ _ hn.1 hn.2 hF
+  rw [hr, if_neg (by unfold posInf; omega)]
+  congr 1
+  exact (bits_decompose b hb).symm
+
+/-- **round trip, special values**: ±0 and ±∞ come back bit for bit; every NaN comes back as a NaN
+    (the C code returns the `NAN` macro, so the payload is not preserved). -/
+theorem REAL2double_double2REAL_special (b : Nat) (hb : b < 2 ^ 64) :
+    ((f64IsZero b ∨ f64IsInf b) → REAL2double (double2REAL b) = .ok b) ∧
+    (f64IsNaN b → ∃ r, REAL2double (double2REAL b) = .ok r ∧ f64IsNaN r) := by
+  have hdec := bits_decompose b hb
+  have hs : f64Sign b = 0 ∨ f64Sign b = 1 := by unfold f64Sign; omega
+  unfold double2REAL classify
+  obtain ⟨e1, e2, e3⟩ := f64_fields b
+  rw [e1, e2, e3]
+  unfold f64IsZero f64IsInf f64IsNaN
+  constructor
+  · rintro (⟨h1, h2⟩ | ⟨h1, h2⟩) <;> rw [h1, h2] at hdec <;> rcases hs with h | h <;>
+      rw [h] at hdec <;> simp [h1, h2, h, REAL2double, signBit, posInf] at hdec ⊢ <;> omega
+  · rintro ⟨h1, h2⟩
+    refine ⟨nanBits, ?_, by decide⟩
+    simp [h1, h2, REAL2double]
+
+/-- **asn_REAL2double decodes the DER contents of every finite or infinite double exactly**
+    (subnormals included — the subnormal defect F1 is in the encoder only). -/
+theorem REAL2double_derReal (b : Nat) (hb : b < 2 ^ 64) (hnan : ¬ f64IsNaN b) :
+    REAL2double (derReal b) = .ok b := by
+  have hdec := bits_decompose b hb
+  have hs : f64Sign b = 0 ∨ f64Sign b = 1 := by unfold f64Sign; omega
+  have hF : f64Frac b < 2 ^ 52 := Nat.mod_lt _ (by positivity)
+  have hE : f64Exp b < 2048 := Nat.mod_lt _ (by decide)
+  unfold f64IsNaN at hnan
+  unfold derReal
+  by_cases h1 : f64Exp b = 2047
+  · have h2 : f64Frac b = 0 := by
+      by_contra h; exact hnan ⟨h1, h⟩
+    rw [h1, h2] at hdec
+    rcases hs with h | h <;> rw [h] at hdec <;> simp [h1, h2, h, REAL2double, signBit, posInf] at hdec ⊢ <;> omega
+  rw [if_neg h1]
+  by_cases h0 : f64Mant b = 0
+  · rw [if_pos h0]
+    have : f64Exp b = 0 ∧ f64Frac b = 0 := by
+      unfold f64Mant at h0; split at h0 <;> omega
+    rw [this.1, this.2] at hdec
+    rcases hs with h | h <;> rw [h] at hdec <;> simp [h, REAL2double, signBit] at hdec ⊢ <;> omega
+  rw [if_neg h0]
+  simp only []
+  have hmlt : f64Mant b < 2 ^ 53 := by unfold f64Mant; split <;> omega
+  have ht : ctz (f64Mant b) ≤ 52 := by
+    have := ctz_lt_of_mod_ne (f64Mant b) 53 (by rw [Nat.mod_eq_of_lt hmlt]; exact h0); omega
+  have hp : -1075 ≤ f64Pow b ∧ f64Pow b ≤ 972 := by unfold f64Pow; split <;> omega
+  obtain ⟨p1, p2⟩ := ctz_props (f64Mant b) h0
+  obtain ⟨d, hd⟩ := Nat.dvd_of_mod_eq_zero p1
+  have hpc : (2:Nat) ^ ctz (f64Mant b) > 0 := by positivity
+  have hN : f64Mant b / 2 ^ ctz (f64Mant b) = d := by
+    have := Nat.mul_div_cancel_left d hpc; rw [← hd] at this; exact this
+  have hdle : d ≤ f64Mant b := by rw [← hN]; exact Nat.div_le_self _ _
+  have := REAL2double_base2 (f64Sign b) (by omega) (f64Pow b + (ctz (f64Mant b) : Nat)) (by omega) (by omega)
+    [] (Or.inl rfl) (f64Mant b / 2 ^ ctz (f64Mant b)) (by rw [hN]; omega)
+    (by rw [hN]; intro h; subst h; simp at hd; omega)
+  simp only [List.nil_append] at this
+  rw [this]
+  have hr : roundToDouble (f64Mant b / 2 ^ ctz (f64Mant b)) (f64Pow b + (ctz (f64Mant b) : Nat))
+      = f64Exp b * 2 ^ 52 + f64Frac b := by
+    rw [← roundToDouble_mul_pow, hN, Nat.mul_comm, ← hd]
+    unfold f64Mant f64Pow
+    by_cases hz : f64Exp b = 0
+    · rw [if_pos hz, if_pos hz, hz]; simp; exact roundToDouble_subnormal _ hF
+    · rw [if_neg hz, if_neg hz]; exact roundToDouble_normal _ _ (by omega) (by omega) hF
+  rw [hr, if_neg (by unfold posInf; omega)]
+  congr 1
+  exact hdec.symm
+
+/-- **the Spec is canonical** (sanity of `derReal`, X.690 §11.3.1): for every finite non-zero double
+    the mantissa `n` is odd, `n · 2^e` is exactly the value of the double, the exponent octets are the
+    minimal two's-complement form of `e`, and the mantissa octets are the minimal base-256 form of `n`. -/
+theorem derReal_canonical (b : Nat) (hf : f64Exp b ≠ 2047) (h0 : f64Mant b ≠ 0) :
+    let t := ctz (f64Mant b)
+    let n := f64Mant b / 2 ^ t
+    let e : Int := f64Pow b + (t : Nat)
+    derReal b = (0x80 + 0x40 * f64Sign b + ((realExpOctets e).length - 1)) :: (realExpOctets e ++ toBE n) ∧
+    n % 2 = 1 ∧ n * 2 ^ t = f64Mant b ∧
+    MinimalTwos (realExpOctets e) ∧ twosVal (realExpOctets e) = e ∧
+    ofBE 0 (toBE n) = n ∧ (∀ x l, toBE n = x :: l → x ≠ 0) := by
+  intro t n e
+  have hF : f64Frac b < 2 ^ 52 := Nat.mod_lt _ (by positivity)
+  have hE : f64Exp b < 2048 := Nat.mod_lt _ (by decide)
+  have hmlt : f64Mant b < 2 ^ 53 := by unfold f64Mant; split <;> omega
+  have ht : t ≤ 52 := by
+    have := ctz_lt_of_mod_ne (f64Mant b) 53 (by rw [Nat.mod_eq_of_lt hmlt]; exact h0); omega
+  have hp : -1075 ≤ f64Pow b ∧ f64Pow b ≤ 972 := by unfold f64Pow; split <;> omega
+  obtain ⟨p1, p2⟩ := ctz_props (f64Mant b) h0
+  refine ⟨?_, p2, ?_, ?_, ?_, ofBE_toBE n, toBE_head_ne_zero n⟩
+  · unfold derReal; rw [if_neg hf, if_neg h0]
+  · exact Nat.div_mul_cancel (Nat.dvd_of_mod_eq_zero p1)
+  · have h1 : -1075 ≤ e := by omega
+    have h2 : e ≤ 1024 := by omega
+    clear_value e
+    unfold realExpOctets twosOctets
+    by_cases c1 : -128 ≤ e ∧ e < 128
+    · rw [if_pos c1]; simp [toBEn, MinimalTwos]
+    · have h12 : -32768 ≤ e ∧ e < 32768 := by omega
+      rw [if_neg c1, if_pos h12]
+      simp only [toBEn]
+      norm_num
+      unfold MinimalTwos
+      split
+      · rename_i heq; simp at heq; obtain ⟨q1, q2, _⟩ := heq; omega
+      · rename_i heq; simp at heq; obtain ⟨q1, q2, _⟩ := heq; omega
+      · trivial
+  · have h1 : -1075 ≤ e := by omega
+    have h2 : e ≤ 1024 := by omega
+    clear_value e
+    unfold realExpOctets twosOctets
+    by_cases c1 : -128 ≤ e ∧ e < 128
+    · rw [if_pos c1]; simp only [toBEn, twosVal, ofBE]; norm_num; split <;> omega
+    · have h12 : -32768 ≤ e ∧ e < 32768 := by omega
+      rw [if_neg c1, if_pos h12]; simp only [toBEn, twosVal, ofBE]; norm_num; split <;> omega
+
+/-- **asn_REAL2double, reserved forms** (X.690 §8.5.6/§8.5.7.2): first octets 00, 04..3F (reserved
+    decimal forms), 44..7F (reserved special values) and binary encodings with base bits 11 are
+    rejected with EINVAL, whatever follows. -/
+theorem REAL2double_reserved_einval (o : Nat) (ho : o < 256) (tl : Bytes)
+    (h : o = 0 ∨ (4 ≤ o ∧ o < 0x40) ∨ (0x44 ≤ o ∧ o < 0x80) ∨ (0x80 ≤ o ∧ o / 16 % 4 = 3)) :
+    REAL2double (o :: tl) = .einval := by
+  unfold REAL2double
+  simp only []
+  rcases h with h | h | h | h
+  · subst h; simp
+  · rw [if_neg (by omega), if_pos (by omega), if_pos (Or.inr (by omega))]
+  · rw [if_pos (by omega), if_neg (by omega), if_neg (by omega), if_neg (by omega), if_neg (by omega)]
+  · rw [if_neg (by omega), if_neg (by omega), h.2]; rfl
+
+/-- **asn_REAL2double, binary encodings** (X.690 §8.5.7) with base 2, 8 or 16 (`base` = 0, 1, 2),
+    scaling factor `F`, sign `s`, the exponent in 1–3 octets (`eo`, any two's-complement octets,
+    minimal or not) and a mantissa `N < 2^53` (any octets, leading zeros allowed): the result is
+    the correctly rounded (nearest-even) double of `(-1)^s · N · 2^F · B^E`, ERANGE iff that
+    rounds to infinity.  (For wider mantissas the C code rounds at every accumulation step.) -/
+theorem REAL2double_binary_spec (s base F : Nat) (hs : s ≤ 1) (hb : base ≤ 2) (hF : F ≤ 3)
+    (eo : Bytes) (hel : 1 ≤ eo.length ∧ eo.length ≤ 3) (mant : Bytes) (hm : ofBE 0 mant < 2 ^ 53) :
+    REAL2double ((128 + 64 * s + 16 * base + 4 * F + (eo.length - 1)) :: (eo ++ mant)) =
+      (let r := roundToDouble (ofBE 0 mant)
+                  (expValue eo * ((if base = 0 then 1 else if base = 1 then 3 else 4 : Nat) : Int) + (F : Nat))
+       if r ≥ posInf then .erange else .ok (s * signBit + r)) := by
+  have hmant : mantissaLoop 0 mant = dblOfNat (ofBE 0 mant) := by
+    have h0 : (0 : Nat) = dblOfNat 0 := by decide
+    conv_lhs => rw [h0]
+    exact mantissaLoop_exact _ 0 hm
+  have hld := ldexpPos_ofNat (ofBE 0 mant) hm
+  generalize ofBE 0 mant = N at *
+  obtain ⟨l1, l3⟩ := hel
+  generalize hlen : eo.length = len at *
+  generalize ho : 128 + 64 * s + 16 * base + 4 * F + (len - 1) = o
+  have f1 : o / 64 % 4 ≠ 1 := by omega
+  have f2 : o / 64 % 4 ≠ 0 := by omega
+  have f3 : o / 16 % 4 = base := by omega
+  have f4 : o / 4 % 4 = F := by omega
+  have f5 : o % 4 = len - 1 := by omega
+  have f6 : o / 64 % 2 = s := by omega
+  unfold REAL2double
+  simp only [f1, f2, f3, f5, if_false]
+  have hb3 : base = 0 ∨ base = 1 ∨ base = 2 := by omega
+  match eo, hlen with
+  | [a], hlen =>
+    simp only [List.length_cons, List.length_nil] at hlen
+    subst hlen
+    rcases hb3 with rfl | rfl | rfl <;>
+      simp [REAL2doubleBin, f4, f6, hmant, hld]
+  | [a, a'], hlen =>
+    simp only [List.length_cons, List.length_nil] at hlen
+    subst hlen
+    rcases hb3 with rfl | rfl | rfl <;>
+      simp [REAL2doubleBin, f4, f6, hmant, hld]
+  | [a, a', a''], hlen =>
+    simp only [List.length_cons, List.length_nil] at hlen
+    subst hlen
+    rcases hb3 with rfl | rfl | rfl <;>
+      simp [REAL2doubleBin, f4, f6, hmant, hld]
+  | [], hlen => simp at hlen; omega
+  | _ :: _ :: _ :: _ :: _, hlen => simp at hlen; omega
+/-- instance: base 16, F = 2, negative, E = −1, N = 3: −(3·2²·16⁻¹) = −0.75 -/
+example : REAL2double [0xE8, 0xff, 0x03] = .ok 0xBFE8000000000000 := by decide +kernel
+
+end Real
 
 end Asn1c.Props.C16
